@@ -9,6 +9,11 @@ Ltac Zify.zify_post_hook ::= Z.div_mod_to_equations.
 (* int64 wrapping and time scaling                                                        *)
 (* ------------------------------------------------------------------------------------ *)
 
+Lemma existsb_false_in {A} (f : A -> bool) l : existsb f l = false -> forall x, In x l -> f x = false.
+Proof.
+  induction l as [|y r IH]; intros H x []; cbn in H; apply orb_false_iff in H as [H1 H2]; [subst; exact H1|auto].
+Qed.
+
 Lemma wrap64_id z : in_int64 z -> wrap64 z = z.
 Proof. unfold in_int64, wrap64, two63, two64. intros H. lia. Qed.
 
@@ -473,6 +478,7 @@ Section ImportCsv.
     exists h0 rows ti,
       skipn (q_skip q) (q_records q) = h0 :: rows /\ rows <> [] /\ q_csv_err q = false /\
       validate_header (header_of h0) (q_time_column q) = inr ti /\
+      existsb (fun r => (length (header_of h0) <? length r)%nat) rows = false /\
       let header := header_of h0 in
       let fitted := map (fit (length header)) rows in
       strings_to_time_micros fl_epoch ttext p (q_fmt q) (column_of fitted ti) = Some (b_time b) /\
@@ -487,6 +493,7 @@ Section ImportCsv.
     fold (header_of h0) in H.
     destruct (header_of h0) as [|hx hr] eqn:Eh; [discriminate|].
     destruct (validate_header (hx :: hr) (q_time_column q)) as [e|ti] eqn:Ev; [discriminate|].
+    destruct (existsb (fun r => (length (hx :: hr) <? length r)%nat) rows) eqn:El; [discriminate|].
     destruct (q_csv_err q) eqn:Ec; [discriminate|].
     destruct rows as [|r0 rows'] eqn:Er; [discriminate|].
     rewrite <- Er in *.
@@ -506,7 +513,7 @@ Section ImportCsv.
     Forall (fun nc => length (col_cells (snd nc)) = n) (b_cols b) /\
     length (stored_rows b) = n.
   Proof.
-    intros H. destruct (import_ok_shape q b H) as (h0 & rows & ti & Esk & Hne & Hc & Hv & Ht & Hcols).
+    intros H. destruct (import_ok_shape q b H) as (h0 & rows & ti & Esk & Hne & Hc & Hv & Hlong & Ht & Hcols).
     cbn zeta in *.
     assert (Hn : (length (q_records q) - q_skip q - 1)%nat = length rows).
     { pose proof (skipn_length (q_skip q) (q_records q)) as L. rewrite Esk in L. cbn in L. lia. }
@@ -525,25 +532,119 @@ Section ImportCsv.
   (* every stored column is the faithful conversion of the uploaded cells of one header column;
      nothing is cut when no data record is longer than the header; every column whose name does
      not start with '_' is stored as converted *)
+  Lemma bytes_eqb_eq a b : bytes_eqb a b = true <-> a = b.
+  Proof.
+    revert b. induction a as [|x a IH]; intros [|y b]; cbn; try (split; [discriminate|discriminate]); [tauto|].
+    rewrite andb_true_iff, N.eqb_eq, IH. split; [intros [-> ->]; reflexivity|intros E; injection E; auto].
+  Qed.
+
+  (* a header that passes the first loop of validateImportHeader: no element repeats an earlier
+     one, and only the time column may start with '_' *)
+  Lemma header_scan_none seen h tc :
+    header_scan seen h tc = None ->
+    (forall x, In x h -> existsb (bytes_eqb x) seen = false) /\
+    (forall x, In x h -> starts_underscore x = true -> x = tc).
+  Proof.
+    revert seen. induction h as [|y r IH]; intros seen H; [split; intros x []|].
+    cbn [header_scan] in H. destruct (is_empty y); [discriminate|].
+    destruct (starts_underscore y && negb (bytes_eqb y tc)) eqn:Eu; [discriminate|].
+    destruct (existsb (bytes_eqb y) seen) eqn:Es; [discriminate|].
+    destruct (IH _ H) as [I1 I2]. split.
+    - intros x [<-|Hx]; [exact Es|]. specialize (I1 x Hx). cbn [existsb] in I1.
+      apply orb_false_iff in I1. tauto.
+    - intros x [<-|Hx] Hu; [|auto]. rewrite Hu in Eu. cbn in Eu. apply negb_false_iff in Eu.
+      apply bytes_eqb_eq. exact Eu.
+  Qed.
+
+  Lemma header_scan_time_unique h tc : forall seen k ti,
+    header_scan seen h tc = None -> index_of tc h k = Some ti ->
+    forall i, (i < length h)%nat -> (k + i)%nat <> ti -> nth i h [] <> tc.
+  Proof.
+    induction h as [|y r IH]; intros seen k ti H Hi i Hlt Hne; [cbn in Hlt; lia|].
+    pose proof H as H0. cbn [header_scan] in H. destruct (is_empty y); [discriminate|].
+    destruct (starts_underscore y && negb (bytes_eqb y tc)); [discriminate|].
+    destruct (existsb (bytes_eqb y) seen); [discriminate|].
+    cbn [index_of] in Hi. destruct (bytes_eqb y tc) eqn:Ey.
+    - injection Hi as <-. destruct i as [|i']; [lia|]. cbn [nth]. intros Eq.
+      destruct (header_scan_none _ _ _ H) as [I1 _].
+      assert (Hin : In (nth i' r []) r) by (apply nth_In; cbn in Hlt; lia).
+      specialize (I1 _ Hin). cbn [existsb] in I1. apply orb_false_iff in I1 as [I1 _].
+      apply bytes_eqb_eq in Ey. rewrite Eq, <- Ey in I1.
+      assert (bytes_eqb y y = true) by (apply bytes_eqb_eq; reflexivity). congruence.
+    - destruct i as [|i']; cbn [nth].
+      + intros Eq. apply bytes_eqb_eq in Eq. congruence.
+      + apply (IH (y :: seen) (S k) ti H Hi i'); [cbn in Hlt; lia|lia].
+  Qed.
+
+  Lemma seq_nat_lt i : forall start len, In i (seq_nat start len) -> (start <= i < start + len)%nat.
+  Proof.
+    intros start len; revert start. induction len as [|l IH]; intros start H; [destruct H|].
+    destruct H as [<-|H]; [lia|]. specialize (IH _ H). lia.
+  Qed.
+
+  (* FULL STRENGTH (after fcf78a3 and 53efdcd): every stored column of an accepted upload is the
+     sound conversion of ALL the cells of one header column (rows are only padded, never cut) and
+     it is stored as converted (no accepted column is skipped by inferSchema) *)
   Lemma import_lossless q b :
     imp q = inr b ->
     exists h0 rows,
       skipn (q_skip q) (q_records q) = h0 :: rows /\
       let header := header_of h0 in
-      let fitted := map (fit (length header)) rows in
+      let padded := map (pad (length header)) rows in
+      Forall (fun r => (length r <= length header)%nat) rows /\
       Forall (fun nc => exists i, fst nc = nth i header [] /\
-                                  col_sound pf i2f (column_of fitted i) (snd nc) /\
-                                  (starts_underscore (fst nc) = false -> stored_cells nc = col_cells (snd nc)))
-             (b_cols b) /\
-      (Forall (fun r => (length r <= length header)%nat) rows -> fitted = map (pad (length header)) rows).
+                                  col_sound pf i2f (column_of padded i) (snd nc) /\
+                                  starts_underscore (fst nc) = false /\
+                                  stored_cells nc = col_cells (snd nc))
+             (b_cols b).
   Proof.
-    intros H. destruct (import_ok_shape q b H) as (h0 & rows & ti & Esk & Hne & Hc & Hv & Ht & Hcols).
-    exists h0, rows. split; [exact Esk|]. cbn zeta in *. split.
-    - rewrite Hcols. apply Forall_forall. intros nc Hin. apply in_map_iff in Hin as (i & <- & _).
-      exists i. cbn [fst snd]. split; [reflexivity|]. split; [apply column_sound|].
-      intros Hu. unfold stored_cells. cbn [fst snd]. rewrite Hu. reflexivity.
-    - intros Hall. apply map_ext_in. intros r Hr. apply fit_short.
-      rewrite Forall_forall in Hall. apply Hall. exact Hr.
+    intros H. destruct (import_ok_shape q b H) as (h0 & rows & ti & Esk & Hne & Hc & Hv & Hlong & Ht & Hcols).
+    exists h0, rows. split; [exact Esk|]. cbn zeta in *.
+    assert (Hall : Forall (fun r => (length r <= length (header_of h0))%nat) rows).
+    { apply Forall_forall. intros r Hr. pose proof (existsb_false_in _ _ Hlong r Hr) as Hlong'. cbv beta in Hlong'.
+      apply Nat.ltb_ge in Hlong'. exact Hlong'. }
+    assert (Hfit : map (fit (length (header_of h0))) rows = map (pad (length (header_of h0))) rows).
+    { apply map_ext_in. intros r Hr. apply fit_short. rewrite Forall_forall in Hall. auto. }
+    split; [exact Hall|].
+    (* the header passed validation *)
+    unfold validate_header in Hv.
+    destruct (header_scan [] (header_of h0) (q_time_column q)) as [e|] eqn:Hs; [discriminate|].
+    destruct (index_of (q_time_column q) (header_of h0) 0) as [ti'|] eqn:Hi; [|discriminate].
+    destruct (negb (bytes_eqb (q_time_column q) name_time) && existsb (bytes_eqb name_time) (header_of h0));
+      [discriminate|]. injection Hv as ->.
+    rewrite Hcols, <- Hfit. apply Forall_forall. intros nc Hin. apply in_map_iff in Hin as (i & <- & Hf).
+    apply filter_In in Hf as [Hseq Hneq]. apply seq_nat_lt in Hseq. apply negb_true_iff, Nat.eqb_neq in Hneq.
+    exists i. cbn [fst snd]. split; [reflexivity|]. split; [apply column_sound|].
+    assert (Hu : starts_underscore (nth i (header_of h0) []) = false).
+    { destruct (starts_underscore (nth i (header_of h0) [])) eqn:E; [|reflexivity]. exfalso.
+      destruct (header_scan_none _ _ _ Hs) as [_ I2].
+      apply (header_scan_time_unique _ _ _ _ _ Hs Hi i); [lia|lia|].
+      apply I2; [apply nth_In; lia|exact E]. }
+    split; [exact Hu|]. unfold stored_cells. cbn [fst snd]. rewrite Hu. reflexivity.
+  Qed.
+
+  (* uploads that cannot be stored losslessly are rejected as a whole *)
+  Lemma import_rejects_long_row q h0 rows ti :
+    N.eqb (q_delim_runes q) 1 = true -> skipn (q_skip q) (q_records q) = h0 :: rows ->
+    validate_header (header_of h0) (q_time_column q) = inr ti ->
+    existsb (fun r => (length (header_of h0) <? length r)%nat) rows = true ->
+    imp q = inl RLongRow.
+  Proof.
+    intros Hd Esk Hv Hl. unfold import_csv. rewrite Hd. cbn [negb].
+    assert (Hlen : (length (q_records q) <=? q_skip q)%nat = false).
+    { apply Nat.leb_gt. pose proof (skipn_length (q_skip q) (q_records q)) as L. rewrite Esk in L. cbn in L. lia. }
+    rewrite Hlen, Esk. fold (header_of h0).
+    destruct (header_of h0) as [|hx hr] eqn:Eh.
+    { unfold validate_header in Hv. cbn in Hv. discriminate. }
+    rewrite Hv, Hl. reflexivity.
+  Qed.
+
+  Lemma header_rejects_underscore h tc x :
+    In x h -> starts_underscore x = true -> x <> tc -> exists e, validate_header h tc = inl e.
+  Proof.
+    intros Hin Hu Hne. unfold validate_header.
+    destruct (header_scan [] h tc) as [e|] eqn:Hs; [exists e; reflexivity|].
+    destruct (header_scan_none _ _ _ Hs) as [_ I2]. exfalso. apply Hne. apply I2; assumption.
   Qed.
 
   (* the stored time of every data row of an accepted upload is the requested conversion of its
@@ -556,7 +657,7 @@ Section ImportCsv.
       Forall2 (time_cell_ok (q_fmt q))
               (column_of (map (fit (length (header_of h0))) rows) ti) (b_time b).
   Proof.
-    intros Hg H. destruct (import_ok_shape q b H) as (h0 & rows & ti & Esk & Hne & Hc & Hv & Ht & Hcols).
+    intros Hg H. destruct (import_ok_shape q b H) as (h0 & rows & ti & Esk & Hne & Hc & Hv & Hlong & Ht & Hcols).
     exists h0, rows, ti. split; [exact Esk|]. split; [exact Hv|]. cbn zeta in Ht.
     pose proof (time_cells_spec _ _ _ Ht) as F.
     clear Ht. induction F; [constructor|]. constructor; [apply one_time_value_ok; assumption|assumption].
@@ -586,6 +687,57 @@ Lemma parquet_int_lossless t v :
 Proof.
   intros Hr Hu. destruct t; cbn [arrow_int_to_int64]; try reflexivity.
   apply wrap64_id. cbn in Hr. specialize (Hu eq_refl). unfold in_int64, two63 in *. lia.
+Qed.
+
+(* 2599b0c: a uint64 column is stored exactly or the file is rejected - rejected exactly when some
+   non-null value is above MaxInt64 *)
+Lemma pq_uint64_checked p v :
+  (forall z, In (Some z) v -> 0 <= z) ->
+  match pq_cells p (PInt U64 v) with
+  | Some cells => cells = map (fun o => match o with Some z => VInt z | None => VNull end) v /\
+                  (forall z, In (Some z) v -> z < two63)
+  | None => exists z, In (Some z) v /\ two63 <= z
+  end.
+Proof.
+  intros Hpos. cbn [pq_cells].
+  destruct (existsb (fun o => match o with Some z => two63 <=? z | None => false end) v) eqn:E.
+  - apply existsb_exists in E as ([z|] & Hin & Hz); [|discriminate]. exists z. split; [exact Hin|lia].
+  - assert (Hlt : forall z, In (Some z) v -> z < two63).
+    { intros z Hin. pose proof (existsb_false_in _ _ E _ Hin) as E'. cbn in E'. lia. }
+    split; [|exact Hlt]. apply map_ext_in. intros [z|] Hin; [|reflexivity].
+    cbn [arrow_int_to_int64]. rewrite wrap64_id; [reflexivity|].
+    specialize (Hpos z Hin). specialize (Hlt z Hin). unfold in_int64, two63 in *. lia.
+Qed.
+
+Lemma pq_int_exact p t v :
+  t <> U64 -> pq_cells p (PInt t v) = Some (map (fun o => match o with Some z => VInt z | None => VNull end) v).
+Proof. intros Ht. destruct t; try congruence; reflexivity. Qed.
+
+(* 2599b0c: a non-time TIMESTAMP column is stored exactly or the file is rejected *)
+Lemma pq_ts_checked p u v :
+  0 < mul_s p -> 0 < mul_ms p ->
+  match pq_cells p (PTs u v) with
+  | Some cells =>
+      Forall2 (fun o c => match o with
+                          | Some z => c = VInt (match u with USecond => z * mul_s p | UMilli => z * mul_ms p
+                                                          | UMicro => z | UNano => Z.quot z (div_ns p) end)
+                          | None => c = VNull
+                          end) v cells
+  | None => exists z, In (Some z) v /\
+                      ((u = USecond /\ ~ in_int64 (z * mul_s p)) \/ (u = UMilli /\ ~ in_int64 (z * mul_ms p)))
+  end.
+Proof.
+  intros H1 H2. cbn [pq_cells]. induction v as [|o r IH]; cbn [map_opt]; [constructor|].
+  destruct o as [z|].
+  - pose proof (arrow_ts_checked_spec p z u H1 H2) as S.
+    destruct (arrow_ts_checked p z u) as [t|].
+    + destruct (map_opt _ r) as [cells|].
+      * constructor; [|exact IH]. destruct u; try (destruct S as [-> _]); subst; reflexivity.
+      * destruct IH as (z' & Hin & Hz). exists z'. split; [right; exact Hin|exact Hz].
+    + exists z. split; [left; reflexivity|exact S].
+  - destruct (map_opt _ r) as [cells|].
+    + constructor; [reflexivity|exact IH].
+    + destruct IH as (z' & Hin & Hz). exists z'. split; [right; exact Hin|exact Hz].
 Qed.
 
 Lemma arrow_ts_exact p v u :
